@@ -17,6 +17,19 @@ Observed data come in as plain functions: a byte slice is its length and `byteAt
                         PNG cannot represent an image without pixels: for `W = 0` or `H = 0` no PNG image is demanded.
 A panic of the implementation is reported by the driver as clause `panic` before these predicates are consulted.
 
+**Placement fields.**  A graphics message also carries `XYoffset`, `X`, `Y`: where a panel puts the image *on its display*
+("default is to center the image").  They are not part of the stored picture: `checkGfx` has no parameter for them — the
+image of declared size is the expansion of the stored values at (x,y) itself in every routine (the property's "identically
+across the alternative conversion routines": `ConvertGfxStateToPngBytes` and `CreateImgObjectFrom*Bytes` cannot even see
+them), and on a target canvas the copy is centred.  The run sets them to non-default values (`pix.gfxo`) and applies the
+same clauses.
+
+**Objects in use.**  The export and round-trip clauses speak about an image object in a given state, not about a fresh one:
+`checkExport` is applied with the colours the object's exported fields `OLEDPixelColor` / `OLEDBckgColor` show *at the moment
+of the export* and the bitmap it holds then — whatever was set, exported or (re)created on that object before, in any
+order; `checkRoundtrip` is applied to a `CreateFromImage` into an object that already holds an image (of another or of
+exactly the same byte size, with bits set); `checkColor` to every setter call (`pix.obj`).
+
 Luma (`RGB16BitToGray`): the channels are widened to 16 bit (5-bit × 2114, 6-bit × 1040), combined with the weights
 19595, 38470, 7471 (/65536, rounded) and the top 8 bits are kept.
 -/
